@@ -18,7 +18,14 @@ uint64_t fnv1a(uint64_t h, const void *p, size_t n) { const uint8_t *b = (const 
 std::string hex64(uint64_t v) { char b[20]; snprintf(b, sizeof b, "%016llx", (unsigned long long)v); return b; }
 
 void oracle_fail(const std::string &name, const std::string &detail) {
-    if (g_failures.a.size() < 200) { J f = J::obj(); f.set("name", name); f.set("detail", detail); g_failures.push(f); }
+    if (g_failures.a.size() < 200) {
+        J f = J::obj(); f.set("name", name); f.set("detail", detail); g_failures.push(f);
+        // invariant violations seen online survive a later crash of the process: append them to <result>.early at once
+        if (sim_active() && g_failures.a.size() <= 20) {
+            int fd = open((g_result_path + ".early").c_str(), O_WRONLY | O_CREAT | O_APPEND, 0644);
+            if (fd >= 0) { std::string l = f.str() + "\n"; if (write(fd, l.data(), l.size()) < 0) {} close(fd); }
+        }
+    }
 }
 int oracle_fail_count() { return (int)g_failures.a.size(); }
 
